@@ -71,6 +71,8 @@ var values = func() []tval {
 		{name: "enum:E.E1", key: "enumvalue", src: "E.E1", typ: "enumval", i: big.NewInt(1)},
 		{name: "enum:Other.O7", key: "other-enum", src: "Other.O7", typ: "otherenum"},
 		{name: "msg", key: "message", src: "T(f_int32=1)", typ: "msg", i: big.NewInt(1)},
+		{name: "enum:same-name-other-pool:E7", key: "value-of-a-same-named-enum-of-another-pool", src: "EF.E7", typ: "foreignenum"},
+		{name: "enum:same-name-other-pool:E1", key: "value-of-a-same-named-enum-of-another-pool", src: "EF.E1", typ: "foreignenum"},
 		{name: "msg:other-type", key: "message-of-another-type", src: "U(a=1)", typ: "othermsg"},
 		{name: "msg:same-name-other-pool", key: "message-of-a-same-named-type-of-another-pool", src: `TF(f_int32="seven")`, typ: "foreignmsg"},
 		{name: "dict:empty", key: "dict", src: "{}", typ: "dict", i: nil},
